@@ -49,7 +49,7 @@ def rats(a):
     return [gamma.proj_rat(x, 1000) for x in np.asarray(a, dtype=float).reshape(-1)]
 
 
-def queries(F, S, t2s, ths, full=True):
+def queries(F, S, t2s, ths, full=True, boot=True):
     """the same queries on both objects, projected; plus bitwise identity"""
     out = {"t2": t2s, "exc_f": "", "exc_s": "", "cm_f": [], "cm_s": [], "rates_f": {}, "rates_s": {},
            "thr_f": {}, "thr_s": {}, "eer_f": [0, 0], "eer_s": [0, 0], "auc_f": [0, 0], "auc_s": [0, 0],
@@ -97,7 +97,7 @@ def queries(F, S, t2s, ths, full=True):
         other = _S([0.25, 0.5], [0.75], score_class="neg" if F.score_class.value == "pos" else "pos", equal_class="neg")
         cfgc = BootstrapConfig(sampling_method=lambda s_: other)
         ident = ident and F.bootstrap_sample(cfgc) is other and S.bootstrap_sample(cfgc) is other
-        if full and len(F.pos) and len(F.neg):
+        if full and boot and len(F.pos) and len(F.neg):
             for sm in ("replacement", "single_pass", "dynamic"):
                 cfgb = BootstrapConfig(sampling_method=sm, nb_samples=3, bootstrap_method="quantile")
                 np.random.seed(5)
@@ -158,7 +158,7 @@ def event(a, cid, mid, ids, flavour, full=True, dtype=None):
             x = realise(v, mid, 0)
             t2s += [2 * v - 1, 2 * v, 2 * v + 1]
             ths += [float(np.nextafter(x, -np.inf)), x, float(np.nextafter(x, np.inf))]
-        e["queries"] = queries(F, S, t2s, ths, full=full)
+        e["queries"] = queries(F, S, t2s, ths, full=full, boot=cid % 4 == 0)
         # history: the genuines / frauds setters re-bind the score arrays; every query still equals Scores
         try:
             if len(g) and len(f):
